@@ -356,6 +356,8 @@ class MiniEval:
                     return a | b
                 if isinstance(e.op, ast.BitAnd):
                     return a & b
+                if isinstance(e.op, ast.BitXor):
+                    return a ^ b
                 if isinstance(e.op, ast.LShift):
                     return a << b
                 if isinstance(e.op, ast.RShift):
@@ -784,19 +786,17 @@ class MiniEval:
         elif isinstance(st, ast.AugAssign):
             cur = self.ev(st.target)
             v = self.ev(st.value)
-            if isinstance(st.op, ast.Add):
-                if isinstance(cur, list):
-                    cur.extend(v)
-                    return
-                self._bind(st.target, cur + v)
-            elif isinstance(st.op, ast.Sub):
-                self._bind(st.target, cur - v)
-            elif isinstance(st.op, ast.Mult):
-                self._bind(st.target, cur * v)
-            elif isinstance(st.op, ast.BitOr):
-                self._bind(st.target, cur | v)
-            else:
+            import operator as _op
+
+            table = {ast.Add: _op.iadd, ast.Sub: _op.isub, ast.Mult: _op.imul, ast.BitOr: _op.ior, ast.BitAnd: _op.iand, ast.BitXor: _op.ixor, ast.FloorDiv: _op.ifloordiv, ast.Mod: _op.imod, ast.LShift: _op.ilshift, ast.RShift: _op.irshift}
+            fn = table.get(type(st.op))
+            if fn is None or isinstance(cur, (Rec, Sym)) or isinstance(v, (Rec, Sym)):
                 raise AnalysisError(f"{self.where}: augmented assignment `{u(st)}`")
+            try:
+                # in-place operators mutate lists and sets (aliases see the change) and rebind the target, as Python does
+                self._bind(st.target, fn(cur, v))
+            except TypeError:
+                raise AnalysisError(f"{self.where}: augmented assignment `{u(st)}` on {type(cur).__name__}")
         elif isinstance(st, ast.If):
             self.run(st.body if self.truth(self.ev(st.test)) else st.orelse)
         elif isinstance(st, ast.For):
